@@ -199,6 +199,26 @@ func drawC03(t *rapid.T) C03Case {
 	cfg.PCheckSat = 70
 	sc := gen.DrawScenario(t, cfg, gen.SmallProfile)
 	c := C03Case{Token: sc.Token, Authz: sc.Authz, RootSeed: rapid.Uint64Range(1, 1<<20).Draw(t, "root"), Reload: rapid.Bool().Draw(t, "reload")}
+	// (iii) a later block's check supported only by a fact that authority-level rules derive
+	if rapid.IntRange(0, 2).Draw(t, "derived-support") == 2 {
+		closure := gen.AuthClosure(sc.Token, sc.Authz)
+		inputs := map[string]bool{}
+		for _, f := range append(append([]m.Pred{}, sc.Authz.Facts...), sc.Token.Blocks[0].Facts...) {
+			inputs[f.Key()] = true
+		}
+		var derived []m.Pred
+		for _, f := range closure {
+			if !inputs[f.Key()] {
+				derived = append(derived, f)
+			}
+		}
+		if len(derived) > 0 {
+			k := 1 + rapid.IntRange(0, len(sc.Token.Blocks)-2).Draw(t, "derived-block")
+			q := sc.Schema.DrawQuery(t, derived, true, gen.QueryHead)
+			sc.Token.Blocks[k].Checks = append(sc.Token.Blocks[k].Checks, m.Check{Queries: []m.Rule{q}})
+			c.Token = sc.Token
+		}
+	}
 	c.F = sc.Schema.DrawAdversarialBlock(t, sc.Token, sc.Authz, true)
 	c.F.Checks = nil
 	c.Pos = rapid.IntRange(0, 3).Draw(t, "pos")
